@@ -47,18 +47,31 @@ def run(oc, tier, seed, model_available, escalate):
         optoks = []
         admissible = True
         allc = [c for c, _ in tree.values()]
-        pool = sorted(set(list(tree) + list(ru.gen_tree(rng, nfiles=4))))
+        # names that can be a file at one time and a directory at another (delete `photos`, later add `photos/img1.raw`)
+        pool = sorted(set(list(tree) + list(ru.gen_tree(rng, nfiles=4)) + ["photos", "photos/img1.raw", "d", "d/inner.txt", "D2", "D2/x/y.bin"]))
         nops = rng.randint(1, 12)
         hist = []
+        # a share of histories starts with a scripted pattern: a recorded file is replaced by a directory of the same name (or the reverse)
+        script = []
+        if i % 5 == 0:
+            fd = rng.choice([("photos", "photos/img1.raw"), ("d", "d/inner.txt"), ("D2", "D2/x/y.bin")])
+            a, b_ = fd if rng.random() < 0.6 else (fd[1], fd[0])
+            script = [("A", a), ("U", None), ("D", a), ("A", b_)] + ([("U", None)] if rng.random() < 0.5 else [])
+            nops = max(nops, len(script) + 1)
         for j in range(nops + 1):
             last = (j == nops)
-            k = "U" if last else rng.choice(["A", "A", "D", "U", "U"])
+            forced = script[j] if j < len(script) else None
+            k = "U" if last else (forced[0] if forced else rng.choice(["A", "A", "D", "U", "U"]))
             if k == "A":
-                p = rng.choice(pool)
+                p = forced[1] if forced else rng.choice(pool)
                 if any(p != q and (q.startswith(p + "/") or p.startswith(q + "/")) for q in cur):
                     continue
                 if p in cur and rng.random() < 0.9:
                     continue                      # "add file" = create; overwriting is left to a small share of inadmissible histories
+                tgt = os.path.join(root, *p.split("/"))
+                if os.path.isdir(tgt):
+                    import shutil
+                    shutil.rmtree(tgt)            # an empty directory left behind by deletions (cur holds no file below it)
                 stale_ok = rng.random() < 0.85
                 if p in rows_have and stale_ok and p not in cur:
                     c = row_content[p]           # re-create with the recorded content: admissible
@@ -75,7 +88,7 @@ def run(oc, tier, seed, model_available, escalate):
             elif k == "D":
                 if not cur:
                     continue
-                p = rng.choice(sorted(cur))
+                p = forced[1] if (forced and forced[1] in cur) else rng.choice(sorted(cur))
                 del cur[p]
                 os.remove(os.path.join(root, *p.split("/")))
                 optoks.append("D:%s" % hx(p.encode()))
